@@ -77,18 +77,17 @@ const (
 
 // next gets the next rune from the input.
 func (l *lexer) next() (r rune) {
-	if l.pos >= len(l.input) {
+	// Refill while the window is exhausted or ends inside a multi-byte
+	// character, as long as the input channel is open. An empty chunk is not
+	// the end of input: only the closed channel is.
+	for l.pos >= len(l.input) || !utf8.FullRuneInString(l.input[l.pos:]) {
 		s, ok := <-l.inputs
 		if !ok {
-			if l.pos == l.start {
-				l.width = 0
-				return eof
-			}
-			// continue with leftover + s
+			break // no more input: decode what is left, possibly nothing
 		}
-		l.input = l.input[l.start:l.pos] + s
+		l.input = l.input[l.start:] + s
 		l.posShift += l.start
-		l.lpUpd(s, l.posShift+l.pos-l.start)
+		l.lpUpd(s, l.posShift+len(l.input)-len(s))
 		l.pos -= l.start
 		l.start = 0
 	}
